@@ -44,15 +44,14 @@ for pid in pids:
                 how = 'three-way merge onto the repaired tree'
         if rc != 0:
             print(sid, 'DOES NOT APPLY to the current tree:', out[-200:]); sh('git checkout -q -- . ; git reset -q --hard', cwd=wt); continue
-        patch = sh('git diff', cwd=wt)[1]
+        tmp = '/tmp/_seed_%s.diff' % sid
+        sh('git diff > %s' % tmp, cwd=wt)          # through the shell: CRLF data files must keep their line ends
         rcs, outs = sh('/venv/bin/python -m pytest -q -p no:cacheprovider --timeout=900 --continue-on-collection-errors 2>&1 | tail -3', cwd=wt, env=env)
         suite = [l for l in outs.splitlines() if 'passed' in l or 'failed' in l][-1:]
         rc1, out1 = sh('/venv/bin/python OUT/m%d_demo.py' % k, cwd=wt, env=env)
         sh('git checkout -q -- . ; git reset -q --hard', cwd=wt)
         confirmed = rc0 == 0 and rc1 != 0 and suite and suite[0].strip().startswith('3 failed, 92 passed')
         # the checks, against /repo itself
-        tmp = '/tmp/_seed_%s.diff' % sid
-        open(tmp, 'w').write(patch)
         rc, out = sh('git -C /repo apply %s' % tmp)
         caught = {}
         try:
@@ -64,12 +63,13 @@ for pid in pids:
                         caught['%s/%s' % (p, tier)] = {'rc': rc, 'lines': [l[:300] for l in out.splitlines() if l.startswith(('FINDING', 'ANALYSIS-ERROR'))][:3]}
         finally:
             sh('git -C /repo checkout -- . ; git -C /repo clean -fdq -- athlib js json')
-            os.remove(tmp)
+            pass
         det = sorted(c for c, v in caught.items() if v['rc'] == 1)
         err = sorted(c for c, v in caught.items() if v['rc'] == 2)
         own = any(c.startswith(pid + '/') for c in det)
         print('%s confirmed=%s (%s) suite=%s demo=(%s,%s) own=%s firing=%s errors=%s' % (sid, confirmed, how, suite, rc0, rc1, own, det, err))
         if not confirmed:
+            os.remove(tmp)
             continue
         note = {}
         try:
@@ -78,7 +78,8 @@ for pid in pids:
             pass
         sd = '/verif/seeded/%s' % sid
         os.makedirs(sd, exist_ok=True)
-        open(sd + '/patch.diff', 'w').write(patch)
+        shutil.copy(tmp, sd + '/patch.diff')
+        os.remove(tmp)
         shutil.copy(demo, sd + '/demo.py')
         first = sid in INITIAL
         if ROUND != '2':
